@@ -289,7 +289,8 @@ static std::string handle(const std::vector<std::string>& a) {
       RUN("cstr", (const char*)zt)
       RUN("mutcstr", (char*)zt)
       { const __FlashStringHelper* fz = reinterpret_cast<const __FlashStringHelper*>(convertPtrToFlash(zt)); RUN("flash", fz) }
-      { JsonDocument holder; holder.set(std::string(zt, len)); JsonVariantConst hv = holder.as<JsonVariantConst>(); RUN("variant", hv) }
+      { JsonDocument holder; holder.set(std::string(zt, len)); JsonVariantConst hv = holder.as<JsonVariantConst>();
+        if (hv.as<JsonString>().size() == len && !holder.overflowed()) RUN("variant", hv) }   // (a text longer than the string-length limit cannot be held by a variant)
       delete[] zt;
     }
     delete[] exact;
